@@ -39,7 +39,7 @@ OBLIGATIONS = {
     "cap hit then decay": [1, 2],
     "retention with reconnect": [3, 4, 5, 19, 20, 21],
     "duplicate before / inside / after the delivery window": [7, 8, 9, 10, 11, 12],
-    "recap on parameter update": [13, 14, 32, 33, 34, 35, 36],
+    "recap on parameter update": [13, 14, 32, 33, 34, 35, 36, 37],
     "two topics under the topic cap": [15],
     "colocation above threshold, with and without whitelist": [16, 17, 31],
     "decay-to-zero": [18],
@@ -127,8 +127,8 @@ def generate(ctx):
         sim_L = [18, 26, 34]
     # every single event - in particular every one-aspect parameter update (each cap lowered alone, both, raised, every
     # weight/decay/threshold/window/activation/quantum, refused records) - on counters that sit above the lowered caps,
-    # with a retained peer (warm 3) and past activation (warm 1); never sampled
-    ex_plan += [("ex-w%d-L1" % w, consts(1, 1, topics=("t1",), ids=("m1", "m2", "m3"), maxnow=8, warm=w, rich=True), 10 ** 9) for w in (1, 2, 3)]
+    # with a retained peer (warm 3, 4) and past activation (warm 1); never sampled
+    ex_plan += [("ex-w%d-L1" % w, consts(1, 1, topics=("t1",), ids=("m1", "m2", "m3"), maxnow=8, warm=w, rich=True), 10 ** 9) for w in (1, 2, 3, 4)]
     ex_plan += [("ex-w2-ps3-L1", consts(3, 1, topics=("t1",), ids=("m1", "m2", "m3"), maxnow=8, warm=2, rich=True), 10 ** 9)]
     for ps in (1, 2, 3, 4):
         for L in sim_L:
